@@ -93,6 +93,15 @@ const std::vector<double>& FullHmmTransitionMatrix::getEquilibriumFrequencies() 
   return eqFreq_;
 }
 
+void FullHmmTransitionMatrix::setNamespace(const std::string& prefix)
+{
+  AbstractParametrizable::setNamespace(prefix);
+  for (size_t i = 0; i < vSimplex_.size(); ++i)
+  {
+    vSimplex_[i].setNamespace(prefix + TextTools::toString(i + 1) + ".");
+  }
+}
+
 void FullHmmTransitionMatrix::fireParameterChanged(const ParameterList& parameters)
 {
   size_t salph = getNumberOfStates();
